@@ -65,6 +65,8 @@ def remainder(top):
   objs, tail = walk(top)
   if objs and getattr(objs[-1], "parsed", None) is not True:
     r = getattr(objs[-1], "raw", None)
+    if r is None:
+      return b""                  # the unparsed layer object holds no bytes at all
     return r if isinstance(r, bytes) else None
   if tail is None:
     return b""
@@ -95,8 +97,9 @@ def do_print(top):
   objs, _ = walk(top)
   for o in objs:
     try:
-      s = str(o)
-    except Exception as e:
+      with c15_env.deadline():
+        s = str(o)
+    except (Exception, c15_env.Diverged) as e:
       d = raised(e)
       d["ok"] = False
       d["layer"] = kind_of(o)
@@ -108,8 +111,9 @@ def do_print(top):
 
 def do_dump(top):
   try:
-    s = top.dump()
-  except Exception as e:
+    with c15_env.deadline():
+      s = top.dump()
+  except (Exception, c15_env.Diverged) as e:
     d = raised(e)
     d["ok"] = False
     return d
@@ -118,8 +122,9 @@ def do_dump(top):
 
 def do_pack(top):
   try:
-    b = top.pack()
-  except Exception as e:
+    with c15_env.deadline():
+      b = top.pack()
+  except (Exception, c15_env.Diverged) as e:
     d = raised(e)
     d["ok"] = False
     return d
@@ -138,9 +143,10 @@ class Adapter(object):
     if a == "Offer":
       st = [[x["k"], x["v"]] for x in args["st"]]
       frame, lay = F.build(st, args["plen"], args["pad"])
-      if len(frame) != args["total"] or [dict(x) for x in args["lay"]] != lay:
+      offs = [x["off"] for x in lay] + [lay[-1]["off"] + lay[-1]["hlen"]]
+      if len(frame) != args["total"] or offs != list(args["offs"]):
         raise Machinery("C15: byte builder and PktGrammarLib disagree on the layout of %s: %s vs %s"
-                        % (st, lay, args["lay"]))
+                        % (st, offs, args["offs"]))
       self.args = args
       self.data = frame[:args["cut"]]
       rec = self.ch.offer(self.data)
@@ -148,8 +154,6 @@ class Adapter(object):
         return {"returned": False, "raised": rec["exc"][0], "where": rec["exc"][2],
                 "msg": rec["exc"][1][:120]}
       self.top = rec["parsed"]
-      if rec["again"] is not self.top:
-        return {"returned": False, "raised": "second PacketIn.parse() returned another object", "where": "-"}
       return {"returned": True}
     if a == "Layer":
       objs, _ = walk(self.top)
@@ -168,11 +172,20 @@ class Adapter(object):
     raise Machinery("C15 adapter: unknown action %s" % a)
 
   def normalize(self, obs, exp):
+    """Rest: the spec's expectation [start, len, lo] stands for every remainder
+    frame[s : start+len] with lo <= s <= start (s < start only below a leaf layer that keeps a
+    tail of its body raw); an observation of that form is mapped to the canonical one."""
     if isinstance(obs, dict) and "starts" in obs and isinstance(exp, dict) and "start" in exp:
-      st = obs["starts"]
+      n, st = obs["len"], obs["starts"]
+      end = exp["start"] + exp["len"]
+      s = end - n
+      if n >= 0 and exp["lo"] <= s <= exp["start"] and (st == "any" or s in st):
+        return dict(exp)
       if st == "any" or exp["start"] in st:
-        return {"start": exp["start"], "len": obs["len"]}
-      return {"start": st[0] if st else -1, "len": obs["len"]}
+        at = exp["start"]
+      else:
+        at = st[0] if st else -1
+      return {"start": at, "len": n, "lo": exp["lo"]}
     return obs
 
   def signature(self, st, obs):
